@@ -57,6 +57,7 @@ class Ctx:
     def __init__(self, workdir=None):
         self.evaluations = 0
         self.nontrivial = set()
+        self.nontrivial_n = 0     # cases distinct by construction (enumerations): counted, not hashed
         self.classes = Counter()
         self.samples = []
         self.violations = []      # dicts: sig, detail, case
@@ -103,6 +104,7 @@ class Ctx:
 
     def dump(self):
         return {"evaluations": self.evaluations, "nontrivial": sorted(self.nontrivial),
+                "nontrivial_n": self.nontrivial_n,
                 "classes": dict(self.classes), "samples": self.samples, "violations": self.violations,
                 "sig_counts": dict(self.sig_counts), "grey": self.grey, "pipeline_runs": self.pipeline_runs,
                 "crashed_runs": self.crashed_runs, "harness_errors": self.harness_errors[:5],
@@ -328,7 +330,7 @@ def main_check(pid, tier, seed, replay_path=None):
         return 1 if any(s not in known_sigs for s in sigs) else 0
 
     stages = mod.stages(tier)
-    merged = {"evaluations": 0, "nontrivial": set(), "classes": Counter(), "samples": [], "violations": {},
+    merged = {"evaluations": 0, "nontrivial": set(), "nontrivial_n": 0, "classes": Counter(), "samples": [], "violations": {},
               "sig_counts": Counter(), "grey": 0, "pipeline_runs": 0, "crashed_runs": 0, "notes": Counter()}
     harness = []
     per_stage = {}
@@ -361,6 +363,7 @@ def main_check(pid, tier, seed, replay_path=None):
             ev += r["evaluations"]
             merged["evaluations"] += r["evaluations"]
             merged["nontrivial"].update(r["nontrivial"])
+            merged["nontrivial_n"] += r.get("nontrivial_n", 0)
             merged["classes"].update(r["classes"])
             merged["notes"].update(r["notes"])
             merged["sig_counts"].update(r["sig_counts"])
@@ -406,7 +409,7 @@ def main_check(pid, tier, seed, replay_path=None):
     wall = time.time() - t0
     cov = {
         "evaluations": merged["evaluations"],
-        "distinct_nontrivial": len(merged["nontrivial"]),
+        "distinct_nontrivial": len(merged["nontrivial"]) + merged["nontrivial_n"],
         "rule": mod.RULE,
         "samples": merged["samples"][:8] or [{"note": "no sample recorded"}],
         "classes": dict(sorted(merged["classes"].items())),
